@@ -319,24 +319,69 @@ def check_decoders_pure(ck, R):
 
 
 # ---- argument tags ----------------------------------------------------------------------------------------
+def _static(fa: FA, e, at, depth=0):
+    """The literal a table name denotes: a local bound once, a module-level NAME = <literal>, a class-level
+    attribute read as cls.NAME / self.NAME / <Class>.NAME; wrappers tuple(..) / list(..) / frozenset(..) / set(..) /
+    dict(..) of one literal are looked through.  Anything else is returned as it is."""
+    if depth > 6 or e is None:
+        return e
+    if isinstance(e, ast.Name):
+        if fa.df.is_local(e.id):
+            ds = fa.df.reaching(at, e.id) if at is not None else []
+            if len(ds) == 1 and ds[0].kind == "assign" and ds[0].value is not None:
+                return _static(fa, ds[0].value, ds[0].node, depth + 1)
+            return e
+        v = fa.fi.module.assigns.get(e.id)
+        return _static(fa, v, None, depth + 1) if v is not None else e
+    if isinstance(e, ast.Attribute) and isinstance(e.value, ast.Name):
+        cls = getattr(fa.fi, "cls", None)
+        cnode = getattr(cls, "node", None)
+        if cnode is not None and (e.value.id in ("cls", "self") or e.value.id == cnode.name):
+            for st in cnode.body:
+                if isinstance(st, ast.Assign) and any(isinstance(t, ast.Name) and t.id == e.attr for t in st.targets):
+                    return _static(fa, st.value, None, depth + 1)
+                if isinstance(st, ast.AnnAssign) and isinstance(st.target, ast.Name) and st.target.id == e.attr and st.value is not None:
+                    return _static(fa, st.value, None, depth + 1)
+        return e
+    if isinstance(e, ast.Call) and isinstance(e.func, ast.Name) and e.func.id in ("tuple", "list", "frozenset", "set", "dict", "OrderedDict") and len(e.args) == 1 and not e.keywords:
+        return _static(fa, e.args[0], at, depth + 1)
+    return e
+
+
+def _elements(fa: FA, e, at):
+    """Members of a literal collection (keys for a dict, also through .keys()); None when it is not one."""
+    if isinstance(e, ast.Call) and A.call_attr(e) == "keys" and not e.args and isinstance(e.func, ast.Attribute):
+        e = e.func.value
+    x = _static(fa, e, at)
+    if isinstance(x, (ast.Tuple, ast.List, ast.Set)):
+        return list(x.elts)
+    if isinstance(x, ast.Dict) and all(k is not None for k in x.keys):
+        return list(x.keys)
+    return None
+
+
+def _table_values(fa: FA, e, at):
+    """TABLE[k] / TABLE.get(k[, default]) on a literal dict -> the value expressions it may yield; else None."""
+    if isinstance(e, ast.Subscript):
+        x = _static(fa, e.value, at)
+        if isinstance(x, ast.Dict) and x is not e.value:
+            return list(x.values)
+    if isinstance(e, ast.Call) and A.call_attr(e) == "get" and isinstance(e.func, ast.Attribute) and 1 <= len(e.args) <= 2:
+        x = _static(fa, e.func.value, at)
+        if isinstance(x, ast.Dict) and x is not e.func.value:
+            return list(x.values) + [a for a in e.args[1:] if not A.is_none(a)]
+    return None
+
+
 def _literal_rows(fa: FA, it, at):
     """Rows of a literal table a loop walks: ((a, b), (c, d)) / [..] / {k: v}.items() / a module-level NAME
     holding one of those.  -> list of lists of exprs, or None."""
-    if isinstance(it, ast.Name):
-        if fa.df.is_local(it.id):
-            ds = fa.df.reaching(at, it.id)
-            if len(ds) == 1 and ds[0].kind == "assign" and ds[0].value is not None:
-                return _literal_rows(fa, ds[0].value, ds[0].node)
-            return None
-        v = fa.fi.module.assigns.get(it.id)
-        return _literal_rows(fa, v, at) if v is not None else None
     if isinstance(it, ast.Call) and A.call_attr(it) == "items" and not it.args and isinstance(it.func, ast.Attribute):
-        d = it.func.value
-        if isinstance(d, ast.Name):
-            d = fa.fi.module.assigns.get(d.id) if not fa.df.is_local(d.id) else None
+        d = _static(fa, it.func.value, at)
         if isinstance(d, ast.Dict) and all(k is not None for k in d.keys):
             return [[k, v] for k, v in zip(d.keys, d.values)]
         return None
+    it = _static(fa, it, at)
     if isinstance(it, (ast.Tuple, ast.List)):
         rows = []
         for e in it.elts:
@@ -383,6 +428,8 @@ def _members(fa: FA, e, at, depth=0):
         raise AnalysisError("%s: tag expression too deep" % fa.qual)
     if isinstance(e, ast.Attribute) and isinstance(e.value, ast.Name) and e.value.id == "ResultType":
         return {e.attr}
+    if A.is_none(e):
+        return set()  # a `found = None` initial value: None has no .name, so it never becomes a tag
     if isinstance(e, ast.Subscript) and isinstance(e.value, ast.Name) and e.value.id == "ResultType" and A.const_str(e.slice):
         return {A.const_str(e.slice)}
     if isinstance(e, ast.IfExp):
@@ -392,10 +439,11 @@ def _members(fa: FA, e, at, depth=0):
         for (v, a_) in _name_values(fa, e, at):
             out |= _members(fa, v, a_, depth + 1)
         return out
-    if isinstance(e, ast.Subscript) and isinstance(e.value, ast.Name) and not fa.df.is_local(e.value.id) and isinstance(fa.fi.module.assigns.get(e.value.id), ast.Dict):
+    tv = _table_values(fa, e, at)
+    if tv is not None:
         out = set()
-        for v in fa.fi.module.assigns[e.value.id].values:
-            out |= _members(fa, v, at, depth + 1)
+        for v in tv:
+            out |= _members(fa, v, None, depth + 1)
         return out
     raise AnalysisError("%s: cannot tell which ResultType member `%s` is" % (fa.qual, A.short(e, 50)))
 
@@ -406,6 +454,8 @@ def _tags(fa: FA, e, at, depth=0):
         raise AnalysisError("%s: tag expression too deep" % fa.qual)
     if A.const_str(e) is not None:
         return {A.const_str(e)}
+    if A.is_none(e):
+        return set()  # a `tag = None` initial value is not a tag
     if isinstance(e, ast.Attribute) and e.attr == "name":
         return _members(fa, e.value, at, depth + 1)
     if isinstance(e, ast.IfExp):
@@ -415,10 +465,11 @@ def _tags(fa: FA, e, at, depth=0):
         for (v, a_) in _name_values(fa, e, at):
             out |= _tags(fa, v, a_, depth + 1)
         return out
-    if isinstance(e, ast.Subscript) and isinstance(e.value, ast.Name) and not fa.df.is_local(e.value.id) and isinstance(fa.fi.module.assigns.get(e.value.id), ast.Dict):
+    tv = _table_values(fa, e, at)
+    if tv is not None:
         out = set()
-        for v in fa.fi.module.assigns[e.value.id].values:
-            out |= _tags(fa, v, at, depth + 1)
+        for v in tv:
+            out |= _tags(fa, v, None, depth + 1)
         return out
     if isinstance(e, ast.Call) and A.call_attr(e) == "str" and len(e.args) == 1:
         return _tags(fa, e.args[0], at, depth + 1)
@@ -574,13 +625,11 @@ def check(ck):
                 elif is_type_field(r, at):
                     tags_in |= _tags(da, l, at)
             elif isinstance(op, (ast.In, ast.NotIn)) and is_type_field(l, at):
-                rr = da.expand(r, at) if isinstance(r, ast.Name) and da.df.is_local(r.id) else r
-                if isinstance(rr, ast.Name) and isinstance(da.fi.module.assigns.get(rr.id), (ast.Tuple, ast.List, ast.Set)):
-                    rr = da.fi.module.assigns[rr.id]
-                if not isinstance(rr, (ast.Tuple, ast.List, ast.Set)):
+                elts = _elements(da, r, at)
+                if elts is None:
                     raise AnalysisError("%s: `%s` tests the argument tag against something other than a literal collection" % (da.qual, A.short(n, 60)))
-                for e in rr.elts:
-                    tags_in |= _tags(da, e, at)
+                for e in elts:
+                    tags_in |= _tags(da, e, None if e not in list(ast.walk(r)) else at)
     ck.ob(R3, ea.key(None, "arg-shape"), shapes_ok, "arguments are {type, value} objects" if shapes_ok else
           "an argument encoding has fields other than type/value", ea.where())
     ck.ob(R3, da.key(None, "tags"), tags_out == tags_in and FN_REF_TAG in tags_out, "%d argument tags agree (incl. the function-reference tag)" % len(tags_out) if tags_out == tags_in and FN_REF_TAG in tags_out else
